@@ -149,10 +149,20 @@ GRun(d, gs, l) == IF l = <<>> THEN gs ELSE GRun(d, GStep(d, gs, Head(l)), Tail(l
 Vals(occ) == [i \in DOMAIN occ |-> occ[i].v]
 Conv(it, w) == IF it.kind # "arg" THEN "U" ELSE IF it.vt = "int" THEN ToInt(w) ELSE w
 
-\* one leaf of a branch tries to take its leftmost remaining occurrence
-LeafAttempt(it, R) ==
-  LET occ == R[it.id] IN
-  IF it.kind = "arg" /\ it.arity \in {"many", "some"}
+\* one leaf of a branch tries to take its leftmost remaining occurrence; a leaf with no occurrence left
+\* whose environment variable is set takes the variable's value instead - consuming nothing (C18)
+LeafAttempt(it, R, envv, acc0) ==
+  LET occ == R[it.id]
+      \* the environment stands in for an item only when the line does not mention the item at all
+      ev  == IF acc0[it.id] = <<>> THEN EnvOf(envv, it) ELSE "UNSET" IN
+  IF occ = <<>> /\ ev # "UNSET"
+  THEN IF it.kind = "arg" /\ BadValue(it, ev) THEN [res |-> "hard", v |-> "NONE", used |-> {}, left |-> 0, all |-> FALSE]
+       ELSE [res |-> "ok", used |-> {}, left |-> 0, all |-> FALSE,
+             v |-> IF it.kind = "switch" THEN TRUE
+                   ELSE IF it.kind # "arg" THEN "U"
+                   ELSE IF it.arity \in {"many", "some"} THEN <<Conv(it, ev)>>
+                   ELSE IF it.arity = "opt" THEN [some |-> Conv(it, ev)] ELSE Conv(it, ev)]
+  ELSE IF it.kind = "arg" /\ it.arity \in {"many", "some"}
   THEN \* a repeated member takes every remaining occurrence
        IF \E i \in DOMAIN occ : BadValue(it, occ[i].v) THEN [res |-> "hard", v |-> "NONE", used |-> {}, left |-> 0, all |-> TRUE]
        ELSE IF occ = <<>> THEN [res |-> IF it.arity = "some" THEN "miss" ELSE "ok", v |-> <<>>, used |-> {}, left |-> 0, all |-> TRUE]
@@ -170,8 +180,8 @@ LeafAttempt(it, R) ==
              v |-> IF it.kind = "switch" THEN TRUE
                    ELSE IF it.arity = "opt" THEN [some |-> Conv(it, h.v)] ELSE Conv(it, h.v)]
 MinOf(S) == CHOOSE x \in S : \A y \in S : x <= y
-BranchAttempt(br, R) ==
-  LET A == [j \in DOMAIN br.fields |-> LeafAttempt(br.fields[j], R)]
+BranchAttempt(br, R, envv, acc0) ==
+  LET A == [j \in DOMAIN br.fields |-> LeafAttempt(br.fields[j], R, envv, acc0)]
       used == UNION {A[j].used : j \in DOMAIN A}
       lefts == {A[j].left : j \in {j \in DOMAIN A : A[j].used # {}}} IN
   [res |-> IF \E j \in DOMAIN A : A[j].res = "hard" THEN "hard"
@@ -180,27 +190,32 @@ BranchAttempt(br, R) ==
    allof |-> UNION {IF A[j].all THEN A[j].used ELSE {} : j \in DOMAIN A},
    v |-> IF Len(br.fields) = 1 THEN A[1].v ELSE [t |-> [j \in DOMAIN A |-> A[j].v]]]
 
-RECURSIVE AltRounds(_, _, _, _)
-AltRounds(f, R, vals, fuel) ==
-  LET A == [b \in DOMAIN f.branches |-> BranchAttempt(f.branches[b], R)]
-      S == {b \in DOMAIN A : A[b].res = "ok" /\ A[b].used # {}} IN
+RECURSIVE AltRounds(_, _, _, _, _, _)
+AltRounds(f, R, vals, fuel, envv, acc0) ==
+  LET A == [b \in DOMAIN f.branches |-> BranchAttempt(f.branches[b], R, envv, acc0)]
+      S == {b \in DOMAIN A : A[b].res = "ok" /\ A[b].used # {}}
+      Z == {b \in DOMAIN A : A[b].res = "ok"} IN
   IF \E b \in DOMAIN A : A[b].res = "hard" THEN [ok |-> FALSE, why |-> [k |-> "conv"]]
-  ELSE IF S = {} \/ fuel = 0 THEN [ok |-> TRUE, vals |-> vals, R |-> R]
+  ELSE IF S = {} \/ fuel = 0
+       THEN \* a repetition keeps one value of a parser that succeeds without consuming anything (defaults,
+            \* environment) - the first time round only
+            IF vals = <<>> /\ Z # {} THEN [ok |-> TRUE, vals |-> <<[v |-> MinOf(Z) - 1, x |-> A[MinOf(Z)].v]>>, R |-> R]
+            ELSE [ok |-> TRUE, vals |-> vals, R |-> R]
   ELSE LET w  == CHOOSE b \in S : \A c \in S : A[b].left < A[c].left \/ (A[b].left = A[c].left /\ b <= c)
            R2 == [i \in DOMAIN R |-> IF i \in A[w].allof THEN <<>> ELSE IF i \in A[w].used THEN Tail(R[i]) ELSE R[i]] IN
-       AltRounds(f, R2, Append(vals, [v |-> w - 1, x |-> A[w].v]), fuel - 1)
+       AltRounds(f, R2, Append(vals, [v |-> w - 1, x |-> A[w].v]), fuel - 1, envv, acc0)
 
 Leftover(f, R) == \E it \in BranchLeaves(f) : R[it.id] # <<>>
 
-AltVal(f, acc) ==
+AltVal(f, acc, envv) ==
   IF f.arity \in {"many", "some"} THEN
-     LET r == AltRounds(f, acc, <<>>, 16) IN
+     LET r == AltRounds(f, acc, <<>>, 16, envv, acc) IN
      IF ~r.ok THEN r
      ELSE IF Leftover(f, r.R) THEN [ok |-> FALSE, why |-> [k |-> "leftover"]]
      ELSE IF f.arity = "some" /\ r.vals = <<>> THEN [ok |-> FALSE, why |-> [k |-> "missing", id |-> f.id]]
      ELSE [ok |-> TRUE, v |-> r.vals]
   ELSE
-     LET A == [b \in DOMAIN f.branches |-> BranchAttempt(f.branches[b], acc)]
+     LET A == [b \in DOMAIN f.branches |-> BranchAttempt(f.branches[b], acc, envv, acc)]
          O == {b \in DOMAIN f.branches : \E it \in RangeOf(f.branches[b].fields) : acc[it.id] # <<>>}
          Z == {b \in DOMAIN A : A[b].res = "ok"} IN
      IF \E b \in DOMAIN A : A[b].res = "hard" THEN [ok |-> FALSE, why |-> [k |-> "conv"]]
@@ -256,7 +271,7 @@ GFinish(d, gs0, envv) ==
         fv == [k \in DOMAIN d.named |->
                  LET f == d.named[k] IN
                  IF IsLeaf(f) THEN NamedVal(plain, f, envv)
-                 ELSE IF f.kind = "alt" THEN AltVal(f, gs.acc)
+                 ELSE IF f.kind = "alt" THEN AltVal(f, gs.acc, envv)
                  ELSE AdjVal(f, gs.blocks[k])]
         bad == {k \in DOMAIN fv : ~fv[k].ok} IN
     IF bad # {} THEN [class |-> "stderr", why |-> fv[MinOf(bad)].why]
@@ -277,7 +292,8 @@ GAlphabet(d) ==
   \cup {[t |-> x, s |-> "", v |-> "", txt |-> (CASE x = "dd" -> "--" [] x = "help" -> "--help" [] x = "unk" -> "--zz")]
           : x \in RangeOf(d.alpha.extras)}
 
-GInit == /\ def \in Defs /\ env = <<>> /\ line = <<>> /\ st = GInitSt(def)
+GEnvVars(d) == {it.env : it \in GLeaves(d)} \ {""}
+GInit == /\ def \in Defs /\ env \in [GEnvVars(def) -> RangeOf(def.alpha.envvals)] /\ line = <<>> /\ st = GInitSt(def)
 GNext == /\ Len(line) < def.alpha.maxlen
          /\ \E e \in GAlphabet(def) : line' = Append(line, e) /\ st' = GStep(def, st, e) /\ UNCHANGED <<def, env>>
 GSpec == GInit /\ [][GNext]_vars
